@@ -38,6 +38,26 @@ class Parts(object):
     pass
 
 
+def _test_calls(fnode, mod):
+    """functions of the module called where a truth value is wanted: the
+    test of an `if` / `while` / conditional expression or the filter of a
+    comprehension (possibly under `not`)"""
+    out = []
+    tests = []
+    for n in ast.walk(fnode):
+        if isinstance(n, (ast.If, ast.While, ast.IfExp)):
+            tests.append(n.test)
+        elif isinstance(n, ast.comprehension):
+            tests.extend(n.ifs)
+    for t in tests:
+        while isinstance(t, ast.UnaryOp) and isinstance(t.op, ast.Not):
+            t = t.operand
+        if isinstance(t, ast.Call) and isinstance(t.func, ast.Name) and \
+                t.func.id in mod.funcs:
+            out.append(mod.funcs[t.func.id])
+    return out
+
+
 def discover(prog):
     P = Parts()
     mod = prog.module('LTL.model_checking')
@@ -72,11 +92,8 @@ def discover(prog):
     for c in calls_in(P.eproc.node):
         if isinstance(c, ClassInfo):
             P.tableau = c
-    for n in ast.walk(P.eproc.node):
-        if isinstance(n, ast.If) and isinstance(n.test, ast.Call) and \
-                isinstance(n.test.func, ast.Name) and \
-                n.test.func.id in mod.funcs:
-            P.sccfilter = mod.funcs[n.test.func.id]
+    for fn in _test_calls(P.eproc.node, mod):
+        P.sccfilter = fn
     if P.tableau is None or P.sccfilter is None:
         raise Inconclusive('R-LTL', 'tableau class / SCC filter not found',
                            P.eproc.where())
@@ -90,11 +107,8 @@ def discover(prog):
         src = ast.unparse(c.node)
         if 'sorted(' in src or '.sort(' in src:
             P.atoms_fn = c
-    for n in ast.walk(tinit.node):
-        if isinstance(n, ast.If) and isinstance(n.test, ast.Call) and \
-                isinstance(n.test.func, ast.Name) and \
-                n.test.func.id in mod.funcs:
-            P.edge_pred = mod.funcs[n.test.func.id]
+    for fn in _test_calls(tinit.node, mod):
+        P.edge_pred = fn
     from .c15 import tableau_alphabet
     P.closure, P.accepted = tableau_alphabet(prog)
     if P.atoms_fn is None or P.edge_pred is None:
